@@ -19,7 +19,8 @@
 //   sD<r> sR<r> sU<r>  set the flag unconditionally
 // Output: <id> <state after op 1>;<state after op 2>;...     state = <U|D|R>:<d.i,d.i,...> of the register the op wrote
 //         P: <id> <bit string per document, row-major over pairs (i,j), i,j >= 1>;...  twice: DOMSupport then DOMServices
-//         X: <id> <ids>;<ids>;...   (err for an exception)
+//         X: <id> <ids>;<ids>;...   (err for an exception; "<ids>!reinserted:<ids>" when inserting the delivered nodes one by
+//            one with addNodeInDocOrder gives another sequence, i.e. the result is not in the library's own document order)
 #include "common.hpp"
 #include <map>
 #include <memory>
@@ -264,7 +265,16 @@ int main(int argc, char** argv)
                         proc.initXPath(xpath, cc, u16_of_token(ops[k].substr(eq + 1)), res);
                         MutableNodeRefList ctxList(mm);
                         XObjectPtr o = xpath.execute(ctx, res, ctxList, ec);
-                        r = o->getType() == XObject::eTypeNodeSet ? w.show(o->nodeset()) : "notnodeset";
+                        if (o->getType() != XObject::eTypeNodeSet) r = "notnodeset";
+                        else {
+                            const NodeRefListBase& ns = o->nodeset();
+                            r = w.show(ns);
+                            // the library's own notion of document order: the same nodes inserted one by one
+                            MutableNodeRefList again(mm);
+                            for (NodeRefListBase::size_type q = 0; q < ns.getLength(); ++q) again.addNodeInDocOrder(ns.item(q), ec);
+                            const std::string r2 = w.show(again);
+                            if (r2 != r) r += "!reinserted:" + r2;
+                        }
                     }
                     catch (const XSLException&) { r = "err"; }
                     catch (const XalanDOMException&) { r = "err"; }
